@@ -87,6 +87,20 @@ def repair_num(x):
 HAZ = {"F-C17a": "num", "F-C17b": "nul"}
 
 
+# Harmless rewrites of the anchored code that must NOT raise an alarm (patches: corpus/C17/negative_controls/*.diff, built as swapped
+# object files and run through the whole flow with corpus/C17/negative_controls/{make_variants,build_variant,run_flow}.py; all exit 0
+# at seeds 1 and 42).  corpus/C17/seeded_changes/*.diff are the six seeded defects the same flow must (and does) report.
+NEGATIVE_CONTROLS = [
+    "nc1_formatting: ConfigWriter indents with four spaces, writes `key=value`, `[a,b]` without blanks, two blanks before `{`; CreateObjectConfig ends the text with two line breaks",
+    "nc2_refactor: CreateObjectConfig/CreateObject/DeleteObject(Helper) with renamed locals, an extracted error-collection helper, reordered independent statements, "
+    "guards respelled (nested ifs, early return instead of negated test)",
+    "nc3_messages: every error and log message text of configobjectutility.cpp and ConfigWriter's exception text reworded",
+    "nc4_order: nested dictionaries written last-to-first, `version` written first in the object body, dependents deleted last-to-first with an extra counter, "
+    "independent statements of CreateObjectConfig swapped",
+    "nc5_equivalent_writer: EscapeIcingaString as one per-character switch, identifier test as a hand-written loop, EmitNumber via snprintf(\"%.6f\"), EmitValue's type tests reordered",
+]
+
+
 class C17(StdCheck):
     prop = "C17"
     required_theorems = ["string_emit_lex_roundtrip", "string_nul_counterexample", "number_emit_denotes_round6",
@@ -112,7 +126,9 @@ class C17(StdCheck):
     level_note = ("Trusted: Lean kernel (+ propext, Classical.choice, Quot.sound), harness/driver, libc printf/strtod (the driver recomputes "
                   "nearest-binary64), the outcome of compile/commit/activate is an oracle input (fault injection in the model). Known findings "
                   "F-C17a..e are reported as KNOWN-FINDING by a classifier that repairs the recorded hazard in the minimised witness and "
-                  "re-runs it: only failures that vanish after the repair are attributed to the finding.")
+                  "re-runs it: only failures that vanish after the repair are attributed to the finding. The harness does not read message texts "
+                  "or private members; five negative controls (NEGATIVE_CONTROLS in checks/c17.py: formatting, refactoring, message texts, "
+                  "iteration order, equivalent re-implementations of the writer) pass the whole flow, six seeded defects are reported.")
     trusted_base = [
         "modelled, not verified: type validation, template import, apply rules, cluster sync of created objects; the HTTP handlers are driven (about 12 % of the operations) but not modelled beyond the calls they make",
         "parameters: glibc printf(\"%.6f\") = exact round-half-even, strtod = nearest binary64 (recomputed in the driver)",
